@@ -24,7 +24,7 @@ func runC13(cfg *hx.Config) {
 	if cfg.Thorough() {
 		n = 800
 	}
-	c13Types := []string{"Dflt", "DOuter", "Incl", "Incl2", "Big", "DElems", "DIn", "DEmp"}
+	c13Types := []string{"Dflt", "DOuter", "Incl", "Incl2", "Big", "DElems", "DIn", "DEmp", "D1", "D2"}
 	for _, tname := range c13Types {
 		t := ref(tname)
 		for i := 0; i < n; i++ {
